@@ -7,7 +7,7 @@
 // with the observations ct / rt0 / rt2, and spec/ModesTrace.tla judges agreement (and correctness where a definition
 // exists).  No oracle and no comparison here.
 //
-//   modes_driver <family>      family in: bit sat str ctype conv kernel chrono flt
+//   families (-DVH_FAM=n): bit sat str ctype+conv kernel+chrono flt(3) bytes
 // Output: one line per call  {"fam","fn",(w|ty|p),"a":[[..],..],"ct":[..] | "nc":1,"rt":[..]}   results and
 // arguments are arrays of integers (floats as [s,e,m] / [s,e,mhi,mlo], wide integers as 16-bit limbs, little endian).
 // -DVH_STD: the same calls on libstdc++/glibc (calibration of the definitions and of this harness).
@@ -38,6 +38,7 @@ namespace impl = etl;
     #define VH_IMPL "etl"
 #else
     #include <algorithm>
+    #include <vector>
     #include <cctype>
     #include <charconv>
     #include <chrono>
@@ -893,9 +894,249 @@ void run_family()
 #endif
 
 // =================================================================================================================
+// family: bytes  (algorithms and container comparisons on single-byte element types: char, signed char, unsigned char;
+//                 all pairs of arrays of length <= 2 (thorough: 3) over {-128,-1,0,1,127} resp. {0,1,127,128,255})
+// =================================================================================================================
+#if VH_FAM == 8
+    #ifdef VH_THOROUGH
+constexpr int BY_MAXLEN = 3;
+    #else
+constexpr int BY_MAXLEN = 2;
+    #endif
+struct ByArr {
+    int n;
+    int ix[3];
+};
+constexpr auto by_arrays()
+{
+    struct T {
+        std::array<ByArr, 160> v {};
+        std::size_t n = 0;
+    } t;
+    t.v[t.n++] = ByArr {0, {0, 0, 0}};
+    for (int a = 0; a < 5; ++a) { t.v[t.n++] = ByArr {1, {a, 0, 0}}; }
+    for (int a = 0; a < 5; ++a) {
+        for (int b = 0; b < 5; ++b) { t.v[t.n++] = ByArr {2, {a, b, 0}}; }
+    }
+    if (BY_MAXLEN >= 3) {
+        for (int a = 0; a < 5; ++a) {
+            for (int b = 0; b < 5; ++b) {
+                for (int c = 0; c < 5; ++c) { t.v[t.n++] = ByArr {3, {a, b, c}}; }
+            }
+        }
+    }
+    return t;
+}
+inline constexpr auto BYA = by_arrays();
+template <class E>
+constexpr E by_elem(int ix)
+{
+    constexpr int sg[] = {-128, -1, 0, 1, 127};
+    constexpr int us[] = {0, 1, 127, 128, 255};
+    return std::is_signed_v<E> ? (E)sg[ix] : (E)us[ix];
+}
+template <class E>
+struct ByBuf {
+    E d[4] {};
+    int n = 0;
+};
+template <class E>
+constexpr auto by_buf(std::size_t k) -> ByBuf<E>
+{
+    ByBuf<E> b;
+    b.n = BYA.v[k].n;
+    for (int i = 0; i < 4; ++i) { b.d[i] = by_elem<E>(i < b.n ? BYA.v[k].ix[i] : 2); } // padded with the element 0 / 127
+    return b;
+}
+template <class E>
+char const* by_tname()
+{
+    return std::is_same_v<E, char> ? "char" : std::is_same_v<E, signed char> ? "schar" : "uchar";
+}
+    #ifndef VH_STD
+template <class E>
+using ByVec = etl::static_vector<E, 4>;
+    #else
+template <class E>
+using ByVec = std::vector<E>;
+    #endif
+
+// Which: 0 lexicographical_compare 1 equal 2 mismatch 3 find 4 count 5 copy 6 move 7 fill 8 min_element 9 max_element 10 vector relops
+template <class E, int Which>
+struct Bytes {
+    // arrays of length 3 (thorough tier) only for the comparisons; 31 = number of arrays of length <= 2
+    static constexpr std::size_t M = (Which == 0 || Which == 1 || Which == 10) ? BYA.n : 31;
+    static constexpr std::size_t N = M * M;
+    static constexpr bool has_ct   = true;
+    static void head(std::string& o)
+    {
+        char const* nm[] = {"lexicographical_compare", "equal", "mismatch", "find", "count", "copy", "move", "fill", "min_element", "max_element",
+                            "vector_relops"};
+        o += std::string("\"fam\":\"bytes\",\"fn\":\"") + nm[Which] + "\",\"t\":\"" + by_tname<E>() + "\"";
+    }
+    static void put_arr(ByBuf<E> const& b, int n)
+    {
+        Seq<4> q;
+        for (int i = 0; i < n; ++i) { q.push((long)b.d[i]); }
+        put_seq(q);
+    }
+    static void args(std::string& o, std::size_t i)
+    {
+        auto a = by_buf<E>(i / M);
+        auto b = by_buf<E>(i % M);
+        put_arr(a, a.n);
+        o += ',';
+        put_arr(b, Which == 5 || Which == 6 || Which == 7 ? 4 : b.n); // the destination buffer is logged in full
+        if (Which == 3 || Which == 4 || Which == 7) {
+            o += ',';
+            arg1(o, (long)b.d[0]); // the value searched for / filled in: first element of b (or the padding element)
+        }
+    }
+    static constexpr auto eval(std::size_t i)
+    {
+        auto a = by_buf<E>(i / M);
+        auto b = by_buf<E>(i % M);
+        E const* a0 = a.d;
+        E const* a1 = a.d + a.n;
+        E const* b0 = b.d;
+        E const* b1 = b.d + b.n;
+        Seq<8> r;
+        if constexpr (Which == 0) {
+            r.push(impl::lexicographical_compare(a0, a1, b0, b1) ? 1 : 0);
+        } else if constexpr (Which == 1) {
+            r.push(impl::equal(a0, a1, b0, b1) ? 1 : 0);
+        } else if constexpr (Which == 2) {
+            auto p = impl::mismatch(a0, a1, b0, b1);
+            r.push((long)(p.first - a0));
+            r.push((long)(p.second - b0));
+        } else if constexpr (Which == 3) {
+            r.push((long)(impl::find(a0, a1, b.d[0]) - a0));
+        } else if constexpr (Which == 4) {
+            r.push((long)impl::count(a0, a1, b.d[0]));
+        } else if constexpr (Which == 5) {
+            auto e = impl::copy(a0, a1, b.d);
+            for (auto x : b.d) { r.push((long)x); }
+            r.push((long)(e - b.d));
+        } else if constexpr (Which == 6) {
+            auto e = impl::move(a0, a1, b.d);
+            for (auto x : b.d) { r.push((long)x); }
+            r.push((long)(e - b.d));
+        } else if constexpr (Which == 7) {
+            E v = b.d[0];
+            impl::fill(b.d, b.d + a.n, v);
+            for (auto x : b.d) { r.push((long)x); }
+        } else if constexpr (Which == 8) {
+            r.push((long)(impl::min_element(a0, a1) - a0));
+        } else if constexpr (Which == 9) {
+            r.push((long)(impl::max_element(a0, a1) - a0));
+        } else {
+            ByVec<E> u;
+            ByVec<E> v;
+            for (int k = 0; k < a.n; ++k) { u.push_back(a.d[k]); }
+            for (int k = 0; k < b.n; ++k) { v.push_back(b.d[k]); }
+            r.push(u == v ? 1 : 0);
+            r.push(u != v ? 1 : 0);
+            r.push(u < v ? 1 : 0);
+            r.push(u <= v ? 1 : 0);
+            r.push(u > v ? 1 : 0);
+            r.push(u >= v ? 1 : 0);
+        }
+        return r;
+    }
+};
+// array<E, 2> relational operators over all pairs of length-2 arrays
+template <class E>
+struct BytesArr {
+    static constexpr std::size_t N = 625;
+    static constexpr bool has_ct   = true;
+    static void head(std::string& o) { o += std::string("\"fam\":\"bytes\",\"fn\":\"array_relops\",\"t\":\"") + by_tname<E>() + "\""; }
+    static constexpr auto arr(std::size_t k) { return impl::array<E, 2> {by_elem<E>((int)(k / 5)), by_elem<E>((int)(k % 5))}; }
+    static void args(std::string& o, std::size_t i)
+    {
+        for (std::size_t k : {i / 25, i % 25}) {
+            auto a = arr(k);
+            Seq<4> q;
+            q.push((long)a[0]);
+            q.push((long)a[1]);
+            put_seq(q);
+            if (k == i / 25 && true) { o += ','; }
+        }
+        if (o.back() == ',') { o.pop_back(); }
+    }
+    static constexpr auto eval(std::size_t i)
+    {
+        auto u = arr(i / 25);
+        auto v = arr(i % 25);
+        Seq<8> r;
+        r.push(u == v ? 1 : 0);
+        r.push(u != v ? 1 : 0);
+        r.push(u < v ? 1 : 0);
+        r.push(u <= v ? 1 : 0);
+        r.push(u > v ? 1 : 0);
+        r.push(u >= v ? 1 : 0);
+        return r;
+    }
+};
+// equal on float arrays over {-0.0, +0.0, 1.0, NaN} (codes 0..3): element-wise ==, not a comparison of representations
+struct BytesEqFlt {
+    static constexpr std::size_t M = 21; // lengths 0..2 over 4 symbols
+    static constexpr std::size_t N = M * M;
+    static constexpr bool has_ct   = true;
+    static constexpr int len(std::size_t k) { return k == 0 ? 0 : k <= 4 ? 1 : 2; }
+    static constexpr int code(std::size_t k, int j) { return k <= 4 ? (int)(k - 1) : (j == 0 ? (int)((k - 5) / 4) : (int)((k - 5) % 4)); }
+    static constexpr float val(int c) { return c == 0 ? -0.0F : c == 1 ? 0.0F : c == 2 ? 1.0F : std::numeric_limits<float>::quiet_NaN(); }
+    static void head(std::string& o) { o += "\"fam\":\"bytes\",\"fn\":\"equal_flt\",\"t\":\"float\""; }
+    static void args(std::string& o, std::size_t i)
+    {
+        for (int w = 0; w < 2; ++w) {
+            std::size_t k = w == 0 ? i / M : i % M;
+            Seq<4> q;
+            for (int j = 0; j < len(k); ++j) { q.push(code(k, j)); }
+            put_seq(q);
+            if (w == 0) { o += ','; }
+        }
+    }
+    static constexpr auto eval(std::size_t i)
+    {
+        float a[2] = {};
+        float b[2] = {};
+        std::size_t ka = i / M, kb = i % M;
+        for (int j = 0; j < len(ka); ++j) { a[j] = val(code(ka, j)); }
+        for (int j = 0; j < len(kb); ++j) { b[j] = val(code(kb, j)); }
+        Seq<8> r;
+        r.push(impl::equal(a, a + len(ka), b, b + len(kb)) ? 1 : 0);
+        return r;
+    }
+};
+template <class E>
+void run_bytes_of()
+{
+    run_table<Bytes<E, 0>>();
+    run_table<Bytes<E, 1>>();
+    run_table<Bytes<E, 2>>();
+    run_table<Bytes<E, 3>>();
+    run_table<Bytes<E, 4>>();
+    run_table<Bytes<E, 5>>();
+    run_table<Bytes<E, 6>>();
+    run_table<Bytes<E, 7>>();
+    run_table<Bytes<E, 8>>();
+    run_table<Bytes<E, 9>>();
+    run_table<Bytes<E, 10>>();
+    run_table<BytesArr<E>>();
+}
+void run_family()
+{
+    run_bytes_of<char>();
+    run_bytes_of<signed char>();
+    run_bytes_of<unsigned char>();
+    run_table<BytesEqFlt>();
+}
+#endif
+
+// =================================================================================================================
 // family: flt  (rounding / classification part of cmath; per-call constant evaluation)
 // =================================================================================================================
-#if VH_FAM >= 5
+#if VH_FAM >= 5 && VH_FAM <= 7
     #define FLT1(NAME)                                                                                                                 \
         template <class T>                                                                                                             \
         struct Flt_##NAME {                                                                                                            \
